@@ -253,6 +253,11 @@ def run_compute(case, **kw):
         },
         simulation=sim,
     )
+    for path, value in case.get("tweaks", []):  # further configuration fields, by path
+        obj = conf
+        for name in path[:-1]:
+            obj = getattr(obj, name)
+        setattr(obj, path[-1], value)
     np.random.seed(case["seed"])
     with dask.config.set(scheduler=case.get("scheduler", "synchronous")), quiet():
         tab = compute(conf, verbose=False, **kw)
